@@ -43,7 +43,7 @@ FUNCTIONS = [
 ]
 STUBS = ["none: the mode classes run unmodified; list elements and table cells are opaque z3 terms carried by real pandas / xarray containers"]
 OUTSIDE = ["coordinate attachment and the final xr.merge are checked on solver-chosen witnesses (concrete replay), not symbolically",
-           "textual numpy.* range expressions (concrete eval); dask execution (C07)"]
+           "dask graph execution (C07); the function each worker executes is driven directly", "numpy expressions are covered for four fixed expression texts"]
 ASSUMPTIONS = ["values inside one list are pairwise distinct (pandas / xarray need unique labels)"]
 EXPLANATION = "oracle: lexicographic product with mixed-radix indices / concatenation with defaults / one run per table row"
 
